@@ -104,6 +104,25 @@ inline bool bigNumbers(const std::string& s)
   return false;
 }
 
+// Class counts ("n=<k>" arguments, at any nesting level) legitimately size the work of a distribution description
+// (k quantile evaluations, each thousands of sanitized floating point operations): keep k <= 16 so that a time-out can
+// only mean non-termination.  Whitespace is ignored as the key-value parser does.
+inline bool bigClassCount(const std::string& desc)
+{
+  std::string s;
+  for (char c : desc) if (c != ' ' && c != '\t' && c != '\n' && c != '\r' && c != '\f' && c != '\v') s += c;
+  for (size_t i = 0; i + 2 < s.size(); ++i)
+  {
+    if (s[i] == 'n' && s[i + 1] == '=' && (i == 0 || s[i - 1] == '(' || s[i - 1] == ','))
+    {
+      size_t j = i + 2, v = 0, digits = 0;
+      while (j < s.size() && s[j] >= '0' && s[j] <= '9' && digits < 6) { v = v * 10 + static_cast<size_t>(s[j] - '0'); ++j; ++digits; }
+      if (v > 16) return true;
+    }
+  }
+  return false;
+}
+
 static volatile size_t sink = 0; // keeps results alive
 inline void use(const std::string& s) { sink += s.size(); }
 inline void use(size_t x) { sink += x; }
@@ -435,7 +454,7 @@ inline void t_dist(In& in)
   using namespace bpp;
   uint8_t op = in.byte();
   std::string s = in.rest();
-  if (bigNumbers(s)) return;
+  if (bigNumbers(s) || bigClassCount(s)) return;
   BppODiscreteDistributionFormat fmt(false);
   std::unique_ptr<DiscreteDistributionInterface> d = fmt.readDiscreteDistribution(s, op & 1);
   if (!d) return;
